@@ -26,7 +26,7 @@ func (C11) Rule() string {
 		"interleaved by the seeded scheduler at every storage call (uniform or sticky choice policy, randomised per run); families: " +
 		"kv (POST/DELETE/GET on 1-2 keys of a child version whose parent holds older values; whole history incl. later quiescent reads checked for linearizability with porcupine against a per-key register model, " +
 		"invoke/return = scheduler event numbers), dag (concurrent new-version/branch/commit/merge on one parent and new versions in different repos; afterwards the C07 graph invariants, at most one child per branch, " +
-		"every acknowledged child present), labels (bodies of several supervoxels; batches of 2-3 commuting label operations issued together - cleaves of ONE body with disjoint supervoxels, merges of distinct bodies into ONE target, a cleave and a merge on disjoint bodies; every acknowledged one must be fully applied: afterwards every read endpoint is compared with the C08 reference model), dag-locks (the dag batches plus node note/log posts, repo info reads and key-value writes on a version that stays open, run with Knobs.LockYield: every Mutex/RWMutex acquisition made from DVID's own sources parks the goroutine, so lock-order inversions and recursive read locks become reachable schedules; a batch that never completes is a C20 wedge, an acknowledged note must be one of the batch's notes, every acknowledged log line present exactly once). In every family each third run sets LockYield as well. non-trivial = at least one decision among >=2 parked goroutines; distinct = distinct decision-sequence hash"
+		"every acknowledged child present), labels (bodies of several supervoxels; batches of 2-3 commuting label operations issued together - cleaves of ONE body with disjoint supervoxels, merges of distinct bodies into ONE target, a cleave and a merge on disjoint bodies; every acknowledged one must be fully applied: afterwards every read endpoint is compared with the C08 reference model), dag-locks (the dag batches plus node note/log posts, repo info reads and key-value writes on a version that stays open, run with Knobs.LockYield: every Mutex/RWMutex acquisition made from DVID's own sources parks the goroutine, so lock-order inversions and recursive read locks become reachable schedules; a batch that never completes is a C20 wedge, an acknowledged note must be one of the batch's notes, every acknowledged log line present exactly once). ann (2-3 clients post and delete annotation elements at distinct positions of ONE block and one tag at the same time; afterwards the block, both tag lists and the all-elements listing hold exactly the acknowledged elements). In every family each third run sets LockYield as well. non-trivial = at least one decision among >=2 parked goroutines; distinct = distinct decision-sequence hash"
 }
 func (C11) Assumptions() []string {
 	return append([]string{"porcupine timeouts (Unknown) are counted as inconclusive, never reported"}, commonAssumptions...)
@@ -36,7 +36,7 @@ func (C11) Budget(tier string) (int, time.Duration) {
 }
 
 func (C11) Generate(r *rand.Rand, tier string, idx int) *drv.Scenario {
-	fam := []string{"kv", "kv", "dag", "labels", "dag-locks"}[r.IntN(5)]
+	fam := []string{"kv", "kv", "dag", "labels", "dag-locks", "ann"}[r.IntN(6)]
 	sc := &drv.Scenario{Family: fam, Knobs: baseKnobs(r)}
 	sc.Knobs.Bias = r.IntN(3)
 	locks := fam == "dag-locks"
@@ -67,6 +67,51 @@ func (C11) Generate(r *rand.Rand, tier string, idx int) *drv.Scenario {
 	var steps []drv.Op
 	valCtr := 0
 	nv := func() string { valCtr++; return fmt.Sprintf("v%d", valCtr) }
+	if fam == "ann" {
+		// annotation elements of ONE block (and one tag) posted and deleted by several clients at once
+		steps = append(steps, drv.Op{Op: "repo", R: 0, N: 0}, drv.Op{Op: "inst", R: 0, I: "ann", T: "annotation"})
+		sc.Fixed = len(steps)
+		used := map[[3]int]bool{}
+		var present [][3]int
+		for b := 0; b < 3+r.IntN(4); b++ {
+			var sub []drv.Op
+			for c := 0; c < 2+r.IntN(2); c++ {
+				cl := fmt.Sprintf("c%d", c+1)
+				if len(present) > 0 && r.IntN(4) == 0 {
+					i := r.IntN(len(present))
+					p := present[i]
+					present = append(present[:i], present[i+1:]...)
+					sub = append(sub, drv.Op{Op: "eldel", C: cl, P: [][]int{{p[0], p[1], p[2]}}})
+					continue
+				}
+				var ps [][]int
+				for k := 0; k < 1+r.IntN(2); k++ {
+					p := [3]int{r.IntN(8), r.IntN(8), r.IntN(8)}
+					if r.IntN(5) == 0 {
+						p[0] += 64 // now and then a neighbouring block (same tag list)
+					}
+					if used[p] {
+						continue
+					}
+					used[p] = true
+					ps = append(ps, []int{p[0], p[1], p[2]})
+				}
+				if len(ps) > 0 {
+					sub = append(sub, drv.Op{Op: "elpost", C: cl, P: ps, Val: pick(r, []string{"t1", "t1", "t2"})})
+				}
+			}
+			for _, s := range sub {
+				if s.Op == "elpost" {
+					for _, p := range s.P {
+						present = append(present, [3]int{p[0], p[1], p[2]})
+					}
+				}
+			}
+			steps = append(steps, drv.Op{Op: "annpar", Sub: sub})
+		}
+		sc.Steps = steps
+		return lockSwarm(sc, idx)
+	}
 	switch fam {
 	case "kv":
 		keys := []string{"k1", "k2"}[:1+r.IntN(2)]
@@ -244,6 +289,7 @@ func (c C11) Execute(sc *drv.Scenario, w *drv.World) (*drv.Violation, error) {
 		return nil, nil
 	}
 	x := NewKVExec(w)
+	annModel := map[[3]int]string{} // (ann family) position -> tag of every element that must exist
 	isDag := sc.Family == "dag" || sc.Family == "dag-locks"
 	lastNote := map[int]string{} // (lock family) version index -> note it must hold
 	logLines := map[int][]string{}
@@ -328,6 +374,15 @@ func (c C11) Execute(sc *drv.Scenario, w *drv.World) (*drv.Violation, error) {
 					}
 					return v, err
 				}
+			}
+		case "annpar":
+			v, err := c.annBatch(x, op, annModel)
+			if err != nil {
+				return nil, err
+			}
+			if v != nil {
+				v.Step = i
+				return v, nil
 			}
 		case "readall":
 			if !x.D.Has(op.V) {
@@ -479,6 +534,96 @@ func (C11) toReq(x *KVExec, s drv.Op) (proto.Req, bool) {
 		return rq, false
 	}
 	return rq, true
+}
+
+// annBatch: concurrent element posts and deletes at distinct positions of one block commute, so afterwards the
+// block, the tag lists and the all-elements listing hold exactly the acknowledged elements.
+func (c C11) annBatch(x *KVExec, op drv.Op, model map[[3]int]string) (*drv.Violation, error) {
+	w := x.W
+	base := "/api/node/" + x.uuid(0) + "/ann"
+	var reqs []proto.Req
+	for _, s := range op.Sub {
+		rq := proto.Req{Client: s.C, Kind: "http"}
+		if s.Op == "eldel" {
+			rq.Method, rq.URL = "DELETE", fmt.Sprintf("%s/element/%d_%d_%d", base, s.P[0][0], s.P[0][1], s.P[0][2])
+		} else {
+			var els []map[string]interface{}
+			for _, p := range s.P {
+				els = append(els, map[string]interface{}{"Pos": p, "Kind": "Note", "Tags": []string{s.Val}, "Prop": map[string]string{"who": s.C}})
+			}
+			eb, _ := json.Marshal(els)
+			rq.Method, rq.URL, rq.Body = "POST", base+"/elements", eb
+		}
+		reqs = append(reqs, rq)
+	}
+	if len(reqs) == 0 {
+		return nil, nil
+	}
+	res, err := w.Batch(reqs, "barrier")
+	if err != nil {
+		return nil, err
+	}
+	if res.Wedged {
+		return nil, w.ClassifyWedge("concurrent annotation element edits\n"+descReqs(reqs), res.Stacks)
+	}
+	for j, s := range op.Sub {
+		if res.Resps[j].Status != 200 {
+			continue
+		}
+		if s.Op == "eldel" {
+			delete(model, [3]int{s.P[0][0], s.P[0][1], s.P[0][2]})
+		} else {
+			for _, p := range s.P {
+				model[[3]int{p[0], p[1], p[2]}] = s.Val
+			}
+		}
+	}
+	if err := w.Barrier(); err != nil {
+		return nil, err
+	}
+	type el struct {
+		Pos  [3]int
+		Tags []string
+	}
+	want := func(tag string) string {
+		var ps []string
+		for p, t := range model {
+			if tag == "" || t == tag {
+				ps = append(ps, fmt.Sprint(p))
+			}
+		}
+		sort.Strings(ps)
+		return strings.Join(ps, " ")
+	}
+	got := func(els []el) string {
+		var ps []string
+		for _, e := range els {
+			ps = append(ps, fmt.Sprint(e.Pos))
+		}
+		sort.Strings(ps)
+		return strings.Join(ps, " ")
+	}
+	reads := []struct{ url, tag string }{{base + "/elements/200_200_200/0_0_0", ""}, {base + "/tag/t1", "t1"}, {base + "/tag/t2", "t2"}}
+	for _, rd := range reads {
+		st, b, err := w.HTTP("GET", rd.url, nil)
+		if err != nil {
+			return nil, err
+		}
+		var els []el
+		if st != 200 || (string(b) != "null" && json.Unmarshal(b, &els) != nil) {
+			return &drv.Violation{Prop: "C11", Oracle: "acked-elements-present", Sig: "annotation read fails after concurrent element edits", Detail: fmt.Sprintf("GET %s -> %d %s", rd.url, st, trunc(b))}, nil
+		}
+		if g, wnt := got(els), want(rd.tag); g != wnt {
+			what := "block"
+			if rd.tag != "" {
+				what = "tag list"
+			}
+			return &drv.Violation{Prop: "C11", Oracle: "acked-elements-present", Sig: "acknowledged annotation elements lost or resurrected after concurrent edits (" + what + ")",
+				Detail: fmt.Sprintf("batch:\n%sGET %s\n holds    %s\n expected %s", descReqs(reqs), rd.url, g, wnt)}, nil
+		}
+	}
+	w.Stats.Probe("annotation-batch-checked")
+	return nil, nil
 }
 
 // checkNodeMeta: every acknowledged note/log post of a concurrent batch took effect - the note is one of the
